@@ -762,17 +762,23 @@ func (c *compiler) evalCallExpression(node *ast.CallExpression) (interface{}, er
 		hc := func(arg reflect.Type) {
 			hhc := reflect.TypeOf((*hctx.HelperContext)(nil)).Elem()
 			if arg.ConvertibleTo(reflect.TypeOf(HelperContext{})) || arg.Implements(hhc) {
-				hargs := HelperContext{
+				hargs := reflect.ValueOf(HelperContext{
 					Context:  c.ctx,
 					compiler: c,
 					block:    node.Block,
+				})
+				if hargs.Type().AssignableTo(arg) {
+					args = append(args, hargs)
+					return
 				}
-				args = append(args, reflect.ValueOf(hargs))
-				return
+				if hargs.Type().ConvertibleTo(arg) {
+					args = append(args, hargs.Convert(arg))
+					return
+				}
 			}
 
-			if arg.ConvertibleTo(reflect.TypeOf(map[string]interface{}{})) {
-				args = append(args, reflect.ValueOf(map[string]interface{}{}))
+			if m := reflect.ValueOf(map[string]interface{}{}); m.Type().ConvertibleTo(arg) {
+				args = append(args, m.Convert(arg))
 				return
 			}
 
